@@ -7,6 +7,7 @@ package scen
 
 import (
 	"fmt"
+	"math"
 	"reflect"
 	"sort"
 	"strings"
@@ -262,7 +263,7 @@ func (a *Alpha) primParseInputs(k Kind) []inClass {
 	case KInt:
 		out = append(out, inClass{"alt", "4", false}, inClass{"uncoercible", "abc", false}, inClass{"falsy", 0, false})
 	case KFloat:
-		out = append(out, inClass{"alt", "4.5", false}, inClass{"uncoercible", "abc", false}, inClass{"falsy", 0.0, false})
+		out = append(out, inClass{"alt", "4.5", false}, inClass{"uncoercible", "abc", false}, inClass{"falsy", 0.0, false}, inClass{"nan", math.NaN(), false})
 	case KBool:
 		out = append(out, inClass{"alt", "on", false}, inClass{"uncoercible", "abc", false}, inClass{"falsy", false, false})
 	case KTime:
@@ -298,6 +299,9 @@ func (a *Alpha) primValidateInputs(k Kind) []inClass {
 	out := []inClass{{"valid", primValue(k, VValid), false}, {"zero", reflect.Zero(primType(k)).Interface(), false}, {"fail1", primValue(k, VFail1), false}}
 	if k != KBool {
 		out = append(out, inClass{"fail2", primValue(k, VFail2), false}, inClass{"failB", primValue(k, VFailB), false})
+	}
+	if k == KFloat {
+		out = append(out, inClass{"nan", math.NaN(), false}) // NaN satisfies no comparison
 	}
 	return out
 }
